@@ -60,8 +60,8 @@ def generate(rng, tier):
     el["B"] = rng.choice([4, 8, 8, 16, 32])
     be = W.gen_backend(rng, ant, el)
     source = rng.choice(["ref", "ref", "setigen"])
-    n_in = rng.choice([1, 2, 3, 4, 5])
-    bpf = rng.choice([1, 2, 2, 3, 4])
+    n_in = rng.choice([1, 2, 3, 4, 5, 5, 9, 14])
+    bpf = rng.choice([1, 2, 2, 3, 4, 8, 16])
     inp = {"source": source, "blocks": n_in, "blocks_per_file": bpf, "directio": rng.choice([None, 0, 1, 1]),
            "n_pad": gen_input_header_extras(rng), "seed": rng.randrange(1 << 30), "npol4": rng.random() < 0.3,
            "std": rng.choice([1.0, 3.0, 10.0, 20.0]), "digitize": rng.random() < 0.7, "template": rng.random() < 0.3,
